@@ -271,6 +271,13 @@ def state_tables() -> tuple[str, dict]:
         for u in unresolved:
             if u not in unresolved_all:
                 unresolved_all.append(u)
+        init = mods[0][0].funcs.get(f"{cls}.__init__")
+        if init is not None:          # a memoising wrapper installed by the constructor
+            for n in ast.walk(init):
+                if isinstance(n, ast.Call):
+                    f = ast.unparse(n.func)
+                    if "cache" in f.lower() or "memo" in f.lower():
+                        writes.append((cls, f"{cls}.__init__", "decorator", f, "cache"))
     tm = mod(TRANSFORMS)
     for name in TRANSFORM_FUNCS:
         if name not in tm.funcs:
@@ -282,6 +289,48 @@ def state_tables() -> tuple[str, dict]:
     for w in writes:
         if w not in dedup:
             dedup.append(w)
+    # ---- the anchored blocks: exits and in-place operations
+    exits, inplace = [], []
+    anchored = [(NN + "rim/rim.py", ["MRILogLikelihood.forward"]),
+                (NN + "conjgradnet/conjgrad.py", ["ConjGrad.forward", "ConjGrad.cg", "ConjGrad.B_op", "ConjGrad._A_star_A_op",
+                                                  "ConjGrad._A_star_op", "_PRP", "_DY", "_BAN"]),
+                (TRANSFORMS, ["expand_operator", "reduce_operator", "complex_multiplication", "conjugate", "complex_dot_product",
+                              "complex_division", "safe_divide"])]
+    for rel, quals in anchored:
+        m = mod(rel)
+        for q in quals:
+            if q not in m.funcs:
+                raise Untranslatable(f"{q} not found in {rel}")
+            fn = m.funcs[q]
+            nret = sum(1 for n in ast.walk(fn) if isinstance(n, ast.Return))
+            nyield = sum(1 for n in ast.walk(fn) if isinstance(n, (ast.Yield, ast.YieldFrom)))
+            exits.append((q, nret, isinstance(fn.body[-1], ast.Return) and nyield == 0))
+            params = {a.arg for a in fn.args.posonlyargs + fn.args.args + fn.args.kwonlyargs} - {"self"}
+            # `data = data.clone()` makes the name a private copy from that line on
+            private = {}
+            for n in ast.walk(fn):
+                if (isinstance(n, ast.Assign) and len(n.targets) == 1 and isinstance(n.targets[0], ast.Name)
+                        and n.targets[0].id in params and ast.unparse(n.value).endswith(".clone()")):
+                    private[n.targets[0].id] = min(private.get(n.targets[0].id, 10 ** 9), n.lineno)
+            for n in ast.walk(fn):
+                if isinstance(n, ast.AugAssign):
+                    inplace.append((q, "augassign " + ast.unparse(n.target)))
+                elif isinstance(n, ast.Assign):
+                    for t in n.targets:
+                        base = t
+                        while isinstance(base, (ast.Subscript, ast.Attribute)) and not isinstance(t, ast.Name):
+                            base = base.value
+                        if (isinstance(t, (ast.Subscript, ast.Attribute)) and isinstance(base, ast.Name) and base.id in params
+                                and not n.lineno > private.get(base.id, 10 ** 9)):
+                            inplace.append((q, "store into argument " + ast.unparse(t)))
+                elif isinstance(n, ast.Call):
+                    f = n.func
+                    if isinstance(f, ast.Attribute) and f.attr.endswith("_") and not f.attr.startswith("__") and f.attr not in ("requires_grad_",):
+                        inplace.append((q, "call ." + f.attr))
+                    if any(k.arg == "out" for k in n.keywords):
+                        inplace.append((q, "out= in " + ast.unparse(f)))
+    exit_rows = ", ".join(f"({_q(q)}, {n}, {'true' if last else 'false'})" for q, n, last in exits)
+    inplace_rows = ", ".join(f"({_q(q)}, {_q(w)})" for q, w in inplace)
     body = ",\n   ".join(f"{{ cls := {_q(c)}, func := {_q(f)}, scope := {_q(s)}, target := {_q(t)}, how := {_q(h)} }}"
                          for c, f, s, t, h in dedup)
     text = ("/-- translated: every write to an attribute of `self`, a class attribute, a module global / container / mutable default,\n"
@@ -290,10 +339,16 @@ def state_tables() -> tuple[str, dict]:
             "/-- the functions that were scanned (`Class:Class.method`, base-class methods under the derived class) -/\n"
             f"def dc_state_reach : List String := [{', '.join(_q(r) for r in reach_all)}]\n"
             "/-- `self.<name>(…)` calls on those paths that resolve to no method of the scanned classes (sub-modules, torch) -/\n"
-            f"def dc_state_unresolved : List String := [{', '.join(_q(u) for u in unresolved_all)}]\n")
+            f"def dc_state_unresolved : List String := [{', '.join(_q(u) for u in unresolved_all)}]\n"
+            "/-- the anchored blocks and the tensor helpers under them: number of `return`s, and whether the last statement is one -/\n"
+            f"def dc_block_exits : List (String × Nat × Bool) := [{exit_rows}]\n"
+            "/-- in-place operations in those functions: augmented assignments, stores into an argument, `x.op_()` calls, `out=` -/\n"
+            f"def dc_block_inplace : List (String × String) := [{inplace_rows}]\n")
     return text, {"dc_state_writes": f"translated ({len(dedup)} writes, {len(reach_all)} functions of {len(DC_CLASSES)} classes)"}
 
 
 STATE_FALLBACK = ("def dc_state_writes : List StateWrite := []\n"
                   "def dc_state_reach : List String := DataConsistency.dcRequiredReach\n"
-                  "def dc_state_unresolved : List String := []\n")
+                  "def dc_state_unresolved : List String := []\n"
+                  "def dc_block_exits : List (String × Nat × Bool) := DataConsistency.dcBlockExits\n"
+                  "def dc_block_inplace : List (String × String) := []\n")
